@@ -68,8 +68,9 @@ def macro_source(case: dict[str, Any]) -> str:
             params.append(f"{PNAMES[i]}: dv")
     sep = ", " if case.get("comma", True) else " "
     head = "{% macro 'm'" + ((sep if case.get("lead_comma") else " ") + ", ".join(params) if params else "") + " %}"
-    pos = [f"'A{i}'" for i in range(case["npos"])]
-    kws = [f"{k}: 'K{j}'" for j, k in enumerate(case["kws"])]
+    nil = case.get("nil_args", False)  # every argument is given as nil: a parameter bound to nil is bound all the same
+    pos = ["nil" if nil else f"'A{i}'" for i in range(case["npos"])]
+    kws = [f"{k}: " + ("nilvar" if nil else f"'K{j}'") for j, k in enumerate(case["kws"])]
     if case.get("kw_first"):
         call_args = kws + pos
     else:
@@ -86,15 +87,16 @@ def macro_expected(case: dict[str, Any]):
         return None  # duplicate keyword names: unspecified
     bound: dict[str, str] = {}
     npos = case["npos"]
+    nil = case.get("nil_args", False)
     for i in range(min(n, npos)):
-        bound[PNAMES[i]] = f"A{i}"
-    excess_args = [f"A{i}" for i in range(n, npos)]
+        bound[PNAMES[i]] = "" if nil else f"A{i}"
+    excess_args = ["" if nil else f"A{i}" for i in range(n, npos)]
     excess_kw = []
     for j, k in enumerate(kws):
         if k in PNAMES[:n]:
-            bound[k] = f"K{j}"
+            bound[k] = "" if nil else f"K{j}"
         else:
-            excess_kw.append((k, f"K{j}"))
+            excess_kw.append((k, "" if nil else f"K{j}"))
     vals = []
     for i in range(3):
         p = PNAMES[i]
@@ -130,7 +132,7 @@ def with_source(ops: list) -> str:
         elif op[0] == "err":
             out.append("{{ 1 | divided_by: 0 }}")  # a render error: raised in strict mode, suppressed in lax mode
         else:
-            args = ", ".join(f"{k}: " + (f"'{v[1]}'" if v[0] == "lit" else v[1]) for k, v in op[1].items())
+            args = ", ".join(f"{k}: " + (f"'{v[1]}'" if v[0] == "lit" else "nil" if v[0] == "nil" else v[1]) for k, v in op[1].items())
             out.append("{% with " + args + " %}" + with_source(op[2]) + "{% endwith %}")
     return "".join(out)
 
@@ -176,7 +178,7 @@ def with_expected(ops: list, glob: dict[str, str]) -> str:
                         if it.kind == "break":
                             break
             else:
-                ns = {k: (v[1] if v[0] == "lit" else lookup(v[1])) for k, v in op[1].items()}
+                ns = {k: (v[1] if v[0] == "lit" else "" if v[0] == "nil" else lookup(v[1])) for k, v in op[1].items()}
                 stack.append(ns)
                 try:
                     run(op[2])
@@ -196,7 +198,7 @@ def judge(ctx: core.Ctx, case: dict[str, Any]) -> None:
     if case["kind"] == "macro":
         src = macro_source(case)
         exp = macro_expected(case)
-        data = {"g": "GLOBAL", "p0": "GP0", "p1": "GP1", "p2": "GP2", "args": "GARGS", "kwargs": "GKW"}
+        data = {"g": "GLOBAL", "p0": "GP0", "p1": "GP1", "p2": "GP2", "args": "GARGS", "kwargs": "GKW", "nilvar": None}
         if exp is None:
             ctx.unspecified("duplicate-keyword")
             o = drv.parse_and_render(env(), src, data)
@@ -206,8 +208,8 @@ def judge(ctx: core.Ctx, case: dict[str, Any]) -> None:
         sig = "macro:" + classify_macro(case)
     else:
         src = with_source(case["ops"])
-        data = {"g": "GLOBAL", "x": "GX"}
-        exp = with_expected(case["ops"], data)
+        data = {"g": "GLOBAL", "x": "GX", "nz": None}
+        exp = with_expected(case["ops"], {"g": "GLOBAL", "x": "GX", "nz": ""})
         sig = "with:" + ("nested" if any(op[0] == "with" and any(o2[0] == "with" for o2 in op[2]) for op in case["ops"]) else "flat")
         flat = repr(case["ops"])
         if "'break'" in flat or "'continue'" in flat or "'err'" in flat:
@@ -263,7 +265,7 @@ def gen_with(rng, depth: int = 0, in_for: bool = False) -> list:
         elif depth < 3:
             bound = rng.sample(["x", "y", "w", "g"], rng.randint(1, 3))
             # a value may name a variable that the same tag binds: it is still evaluated in the enclosing scope
-            args = {k: (["lit", rng.choice(["W1", "W2", "W3"])] if rng.random() < 0.6 else ["var", rng.choice(names)]) for k in bound}
+            args = {k: (["lit", rng.choice(["W1", "W2", "W3"])] if rng.random() < 0.55 else ["nil"] if rng.random() < 0.25 else ["var", rng.choice(names + ["nz"])]) for k in bound}
             inner = gen_with(rng, depth + 1, in_for)
             if not (inner and inner[-1][0] in ("break", "continue")):
                 inner = inner + [["out", bound[0]]]
@@ -287,6 +289,8 @@ def cases(ctx: core.Ctx):
                     if idx % ctx.nshards != ctx.shard:
                         continue
                     yield {"kind": "macro", "params": list(params), "npos": npos, "kws": list(kws), "kw_first": (idx % 5 == 0), "lead_comma": (idx % 7 == 0), "async": (idx % 11 == 0)}
+                    if all(d == "none" for d in params) and (npos or kws) and npos <= len(params) and idx % 3 == 0:  # (how join prints surplus nil arguments is not this property's subject)
+                        yield {"kind": "macro", "params": list(params), "npos": npos, "kws": list(kws), "kw_first": False, "lead_comma": False, "async": (idx % 2 == 0), "nil_args": True}
     ctx.extra["exhaustive"] = True
     for _ in range(ctx.budget(4000, 400_000)):
         yield {"kind": "with", "ops": gen_with(rng), "async": rng.random() < 0.1}
